@@ -202,11 +202,18 @@ func genC20(t *rapid.T) c20Case {
 	if err != nil {
 		panic("harness: " + err.Error())
 	}
+	// the prefix may contain the spelling of the final word again (alone, inside a longer word, in the other number)
+	again := func(c c20Case) c20Case {
+		if rapid.IntRange(0, 3).Draw(t, "wordagain") == 0 {
+			c.Prefix = rapid.SampledFrom([]string{c.Word + " ", c.Word + " and ", c.Word + "ford ", "the " + c.Word + "-", c.Prefix + c.Word + " "}).Draw(t, "againshape")
+		}
+		return c
+	}
 	switch rapid.IntRange(0, 9).Draw(t, "kind") {
 	case 0, 1, 2:
-		return c20Case{Kind: "plural-irregular", Prefix: genC20Prefix(t), Word: applyCase(t, rapid.SampledFrom(lists.PluralIrregular).Draw(t, "w"))}
+		return again(c20Case{Kind: "plural-irregular", Prefix: genC20Prefix(t), Word: applyCase(t, rapid.SampledFrom(lists.PluralIrregular).Draw(t, "w"))})
 	case 3, 4, 5:
-		return c20Case{Kind: "singular-irregular", Prefix: genC20Prefix(t), Word: applyCase(t, rapid.SampledFrom(lists.SingularIrregular).Draw(t, "w"))}
+		return again(c20Case{Kind: "singular-irregular", Prefix: genC20Prefix(t), Word: applyCase(t, rapid.SampledFrom(lists.SingularIrregular).Draw(t, "w"))})
 	case 6:
 		return c20Case{Kind: "uninflected", Prefix: genC20Prefix(t), Word: applyCase(t, rapid.SampledFrom(lists.Uninflected).Draw(t, "w"))}
 	default:
